@@ -589,3 +589,9 @@ def obligations(tier):
     except ImportError:
         pass
     return obs
+
+
+# ---- additions (histories) ----
+BOUNDS["histories (O5)"] = "second step of a two-step history on the production schedule (prediction on a deep copy, SeqFilterPredictResult applied to the owner, update on a deep copy that replaces the owner); first step observed or unobserved; n = 1, 2, m = 1 (thorough: n = 2, m = 2); both resampling modes; replays run the schedules OO, -O, O-O, --O on the real filter"
+ASSUMPTIONS.append("O5 abstracts the estimate between the steps: est_x, est_p (and q_matrix, so that the Cholesky contract applies) are replaced by fresh symbols, every other attribute is what the real first step left on the object; a candidate from this over-approximation that the real two-step history does not reproduce leaves the item undecided (never a violation, never passed)")
+ENCODED += ["resonaate.estimation.results:FilterResult.apply", "resonaate.estimation.results:FilterResult.fromFilter", "resonaate.estimation.sequential_filter:SequentialFilter.getPredictionResult"]
